@@ -1137,7 +1137,17 @@ class InjectedTypeError(TypeError):
     pass
 
 
-INJECTED = {"OSError": InjectedFailure, "ValueError": InjectedValueError, "TypeError": InjectedTypeError}
+class InjectedInterrupt(KeyboardInterrupt):
+    pass
+
+
+class InjectedExit(SystemExit):
+    pass
+
+
+# "fails part-way for ANY reason": ordinary errors and aborts that are not Exception subclasses (Ctrl-C, sys.exit)
+INJECTED = {"OSError": InjectedFailure, "ValueError": InjectedValueError, "TypeError": InjectedTypeError,
+            "KeyboardInterrupt": InjectedInterrupt, "SystemExit": InjectedExit}
 # object graphs holding a value that cannot be stored (dill / zarr reject it): save must raise or store everything
 UNSTORABLE_OBJECTS = ("unpicklable", "objarr-top", "objarr-child", "objarr-dict", "objarr-list", "hugeint-list", "hugeint-array")
 
@@ -1390,6 +1400,8 @@ def rt_save(inp):
                     obj.save(path, mode=mode, store=store, compression_level=comp)
                 except Exception as e:  # noqa: BLE001
                     exc = e
+                except (InjectedInterrupt, InjectedExit) as e:  # the injected abort itself, never a real Ctrl-C
+                    exc = e
         # ---- frame
         sib2 = {x: _digest(os.path.join(work, x)) for x in os.listdir(work) if os.path.join(work, x) != target}
         if sib2 != sib:
@@ -1556,10 +1568,10 @@ def fam_save(tier="quick", seed=0):
         # the same faults raised as ValueError / TypeError (what a handler in the serializer might name)
         eff = "zip" if store == "zip" else "dir"
         cnt = _site_counts(eff, "basic")
-        for exc in ("ValueError", "TypeError"):
+        for exc in ("ValueError", "TypeError", "KeyboardInterrupt", "SystemExit"):
             for site in ("write", "serialize", "zipwrite", "skipmeta", "group"):
                 ks = range(cnt.get(site, 0))
-                if not thorough and len(ks) > 5 and exc == "TypeError":
+                if not thorough and len(ks) > 5 and exc in ("TypeError", "SystemExit"):
                     ks = sorted({0, 1, len(ks) // 2, len(ks) - 1})
                 for k in ks:
                     yield dict(store=store, mode="o", suffix=suffix, pre="saved", fault=[site, k], obj="basic", exc=exc)
@@ -1599,7 +1611,8 @@ def conc_save_case(storekind):
             if name.startswith("fault@") and z3.is_true(val):
                 site = _SITE_MAP.get(name[len("fault@"):].split("!")[0])
         comp = ev("compression_level", None)
-        return dict(store=store, mode=mode, suffix=suffix, pre=pre, fault=[site, None] if site else None, compression_level=comp)
+        return dict(store=store, mode=mode, suffix=suffix, pre=pre, fault=[site, None] if site else None, compression_level=comp,
+                    **({"exc": "any"} if site else {}))  # any: rt tries an ordinary error and a BaseException-only abort
 
     return conc_save
 
@@ -1610,13 +1623,24 @@ _RT_CACHE = {}
 def rt_save_cached(inp):
     key = json.dumps(inp, sort_keys=True, default=str)
     if key not in _RT_CACHE:
-        _RT_CACHE[key] = rt_save(inp)
+        try:
+            _RT_CACHE[key] = rt_save(inp)
+        except Exception as e:  # noqa: BLE001  an oracle never crashes: whatever the real code throws at it is a failure it reports
+            _RT_CACHE[key] = dict(violated=True, klass="oracle-exception", observed=f"{type(e).__name__}: {e}", expected="the scenario runs")
     return dict(_RT_CACHE[key])
 
 
 def rt_save_any_k(inp):
     """Replay entry: a fault given as [site, None] means 'at some position': try every k of that site.
     (Results are memoised per process: the code under test does not change during a run.)"""
+    if inp.get("exc") == "any":
+        last = None
+        for exc in ("OSError", "KeyboardInterrupt", "ValueError", "TypeError"):
+            last = rt_save_any_k(dict(inp, exc=exc))
+            if last["violated"]:
+                last["observed"] = f"[injected {exc}] " + last["observed"]
+                return last
+        return last
     if inp.get("pre") == "linked":
         last = None
         for pre in ("saved", "symlink", "hardlink"):
@@ -1696,7 +1720,7 @@ def _klass(inp, res):
 
 
 BOUNDED = [
-    Bounded.from_rt("fault injection at every write position on the real save", rt_save, fam_save,
+    Bounded.from_rt("fault injection at every write position on the real save", rt_save_cached, fam_save,
                     "exception raised at the k-th call of every fault site (serialize, zarr writes, skip metadata, zip open/write, makedirs, "
                     "rmtree, remove, temp dir, zarr.group), both stores, modes w/o, target absent/file/dir/earlier save, refusals, an unpicklable "
                     "attribute; quick: one 6-attribute object, every k for mode='o' over an earlier save and {first, second, middle, last} k elsewhere; "
